@@ -86,7 +86,8 @@ class World:
         v = args[0]
         if isinstance(v, Poly):
             return not v.t
-        if isinstance(v, (int, float)) and not isinstance(v, bool):
+        from fractions import Fraction
+        if isinstance(v, (int, float, Fraction)) and not isinstance(v, bool):
             return v == 0
         if isinstance(v, Obj):
             return not it.truth(node, v)
@@ -228,11 +229,13 @@ def run_identities(model, dims=(1, 2, 3)):
     wit = []
     n_id = [0]
 
-    def check(w, label, thunk_a, thunk_b):
+    def check(w, label, thunk_a, thunk_b, may_refuse=False):
         n_id[0] += 1
         try:
             a, b = thunk_a(), thunk_b()
         except Raised as r:
+            if may_refuse:
+                return          # the operation is refused, not answered wrongly
             wit.append(f"{label} (n={w.n}): raises at line {r.node.lineno}")
             return
         except StepBound:
@@ -319,6 +322,14 @@ def run_identities(model, dims=(1, 2, 3)):
               lambda: mul(w.call(v, "inv"), v), lambda: one)
         check(w, "v * inv(v) == 1 for a generic vector",
               lambda: mul(v, w.call(v, "inv")), lambda: one)
+        # a generic homogeneous multivector of any grade: whatever inv()
+        # answers is an inverse (it may refuse what it cannot invert)
+        for k in range(n + 1):
+            hk = w.mvec("h", grades={k})
+            check(w, f"inv(A) * A == 1 for a generic multivector of grade {k} "
+                  "(unless inv refuses it)",
+                  lambda hk=hk: mul(w.call(hk, "inv"), hk), lambda: one,
+                  may_refuse=True)
         ps = w.mvec("p", grades={n})
         check(w, "inv(pseudoscalar) * pseudoscalar == 1",
               lambda: mul(w.call(ps, "inv"), ps), lambda: one)
